@@ -1,7 +1,9 @@
 (* Model/Footprint.v - reachability over the call graph extracted from /repo
    (Gen/FootprintFacts.v, regenerated on every run) and the closed-set argument
    behind C20: no function reachable from a run-time API root stores to a
-   package-level variable. *)
+   package-level variable.  Second part: the extracted "a result may be derived
+   from parameter p" facts and the check that named functions never hand out
+   memory of a given parameter. *)
 From Coq Require Import List Bool String NArith Lia.
 Import ListNotations.
 
@@ -70,3 +72,36 @@ Proof.
 Qed.
 
 End Graph.
+
+(* ---- which parameters the results of a function may be derived from (fp_result_from):
+   the parameter itself, a slice or reinterpretation of it, memory loaded through it.
+   A function whose results are derived from its buffer only hands out memory that
+   belongs to the owner of the buffer, whatever its other arguments were. *)
+Definition result_from (rf : list (N * list N)) (i : N) : list N :=
+  match find (fun e => N.eqb (fst e) i) rf with Some e => snd e | None => [] end.
+
+Definition str_mem (s : string) (l : list string) : bool := existsb (String.eqb s) l.
+
+Lemma str_mem_In s l : str_mem s l = true <-> In s l.
+Proof.
+  unfold str_mem. rewrite existsb_exists. split.
+  - intros (y & Hy & E). apply String.eqb_eq in E. subst. exact Hy.
+  - intros H. exists s. split; [exact H|apply String.eqb_refl].
+Qed.
+
+(* the checked property: no function whose name is in prims has parameter p among the
+   parameters its results may be derived from *)
+Definition never_from (fns : list fn_rec) (rf : list (N * list N)) (prims : list string) (p : N) : bool :=
+  forallb (fun f => if str_mem (fn_name f) prims then negb (memN p (result_from rf (fn_id f))) else true) fns.
+
+Theorem never_from_sound fns rf prims p :
+  never_from fns rf prims p = true ->
+  forall f, In f fns -> In (fn_name f) prims -> ~ In p (result_from rf (fn_id f)).
+Proof.
+  unfold never_from. intros H f Hf Hn Hp. rewrite forallb_forall in H. specialize (H f Hf).
+  apply str_mem_In in Hn. rewrite Hn in H. apply memN_In in Hp. rewrite Hp in H. discriminate.
+Qed.
+
+(* not vacuous: every named function is in the graph and its results ARE derived from parameter q *)
+Definition all_from (fns : list fn_rec) (rf : list (N * list N)) (prims : list string) (q : N) : bool :=
+  forallb (fun n => existsb (fun f => String.eqb (fn_name f) n && memN q (result_from rf (fn_id f))) fns) prims.
